@@ -700,20 +700,28 @@ package statedb
 // secondary key (it closes when any object with that secondary key appears or disappears),
 // never the channel of the single object that happened to be found.
 //@ func encodeNonUniqueBytes
-//@   trusted
-//@   pure
+//@   property C04 C18
+//@   ensures @len len(result) == encLen(src)
+//@   ensures @where (arr(result) == arr(src) && off(result) == off(src) && len(result) == len(src)) || fresh(result)
+//@   ensures @frame onlyFresh()
+//@   ensures @enc fresh(result) ==> isEnc(result, 0, src)
+//@   use lemmaCntMono
+//@   ensures @enc-identity !fresh(result) ==> cnt(src, len(src)) == 0
 //@ func partGet returns (iobj, watch, found)
 //@   property C01 C02 C04 C06 C09
 //@   flag nosafety
 //@   ensureslocal @unique-get-watch unique ==> watch == getWatchOf(tree, keyId(ikey))
 //@   ensureslocal @non-unique-covering-watch !unique ==> watch == prefixWatchOf(tree, keyId(searchKey))
 //@ func newNonUniquePartIterator
-//@   trusted
-//@   pure
+//@   property C04 C18
+//@   flag nosafety
+//@   ensures @carries-its-arguments fresh(unboxptr(result)) && ptrto(nonUniquePartIterator, unboxptr(result)).prefixSearch == prefixSearch && ptrto(nonUniquePartIterator, unboxptr(result)).searchKey == searchKey
+//@   ensures @frame onlyFresh()
 //@ func partPrefix returns (it, watch)
 //@   property C01 C02 C04 C06 C09
 //@   flag nosafety
 //@   ensureslocal @covering-watch watch == prefixWatchOf(tree, keyId(key))
+//@   ensures @frame onlyFresh()
 
 // Closing a change iterator (C08, C10): the tracker is removed through a write transaction on its
 // table that is committed on every path (no table lock survives the call), the tracker tree
@@ -866,8 +874,10 @@ package statedb
 //@   trusted
 //@   ensures onlyFresh()
 //@ func newNonUniqueLowerBoundPartIterator
-//@   trusted
-//@   pure
+//@   property C04 C18
+//@   flag nosafety
+//@   ensures @carries-its-arguments result != nil && fresh(result) && result.searchKey == searchKey && result.visited == nil
+//@   ensures @frame onlyFresh()
 //@ func partLowerBound
 //@   property C18 C04
 //@   flag nosafety
@@ -1147,6 +1157,7 @@ package statedb
 //@   atcall Ops.Prefix@1 requires @searched-with-the-escaped-key keyId($1) == lbKeyId(3)
 //@   atcall newNonUniquePartIterator@1 requires @filter-uses-the-searched-key-in-exact-mode !$1 && keyId($2) == lbKeyId(3)
 //@   atcall Ops.Get@1 requires @unique-asks-for-the-key unique && $1 == key
+//@   ensures @frame onlyFresh()
 //@   ensureslocal @unique-get-watch unique ==> watch == getWatchOf(tree, keyId(key))
 //@   ensureslocal @found-object-is-handed-on-whatever-its-key unique && ok ==> ptrto(singletonTableIndexIterator, unboxptr(it)).found && ptrto(singletonTableIndexIterator, unboxptr(it)).obj.revision == obj.revision
 
@@ -1483,3 +1494,37 @@ package statedb
 //@   flag dyncall.yield=pure
 //@   atcall yield@1 requires @the-stored-key-and-object $0 == s.key && $1.revision == s.obj.revision && $1.data == s.obj.data
 //@   mustcall yield@1 when @a-found-object-is-always-yielded s.found
+
+// lpmEntry as an iterator (C04, C13): the head first, then the tail in order, every object
+// under the entry's own secondary key; appendObjects yields the same sequence as a slice.
+//@ func lpmEntry.first returns (obj, ok)
+//@   property C04 C13
+//@   flag nosafety
+//@   ensures @head-of-a-used-entry ok == e.used && obj.revision == e.head.obj.revision && obj.data == e.head.obj.data
+//@ func (*lpmEntry).All
+//@   property C04 C13
+//@   flag nosafety
+//@   flag dyncall.yield=pure
+//@   atcall yield@1 requires @head-first-under-the-entry-key e != nil && e.used && $0 == e.secondary && $1.revision == e.head.obj.revision && $1.data == e.head.obj.data
+//@   atcall yield@2 requires @then-the-tail-in-order $0 == e.secondary && $1.revision == b.obj.revision && $1.data == b.obj.data
+//@   mustcall yield@1 when @a-used-entry-yields-its-head e != nil && e.used
+//@ func (*lpmEntry).appendObjects
+//@   property C04 C13
+//@   flag nosafety
+//@   ensures @empty-for-an-unused-entry (e == nil || !e.used) ==> len(result) == 0
+//@   ensures @head-then-tail e != nil && e.used ==> len(result) == 1 + len(e.tail) && result[0].revision == e.head.obj.revision && result[0].data == e.head.obj.data
+//@   loop 1 invariant 0 <= $i && $i <= len(e.tail) && len(dst) == 1 + $i && dst[0].revision == e.head.obj.revision && dst[0].data == e.head.obj.data && e.tail == old(e.tail)
+// Closing over an LPM iterator: every object of every entry, under the entry's key.
+//@ func (*lpmIteratorAdapter).All$1$1
+//@   property C04 C13
+//@   flag nosafety
+//@   maypanic
+//@   atcall yield@1 requires @object-under-its-entry-key $0 == key && $1.revision == obj.revision && $1.data == obj.data
+//@ func (*lpmNextIterator).next returns (k, o, ok)
+//@   property C04 C13 C07
+//@   flag nosafety
+//@   maypanic
+//@   requires l != nil && l.idx >= 0
+//@   loop 1 invariant l.idx >= 0
+//@   ensures @next-pending-object-under-its-entry-key ok ==> 1 <= l.idx && l.idx <= len(l.pending) && o.revision == l.pending[l.idx - 1].revision && o.data == l.pending[l.idx - 1].data && k == l.key
+//@   ensures @exhausted-for-good !ok ==> l.iter == nil
